@@ -31,9 +31,25 @@ Proof. reflexivity. Qed.
 Theorem C05_pattern_wellformed : forall seg l, tokenize seg = Some l -> parts_ok l = true.
 Proof. exact tokenize_brace_free. Qed.
 
-(* F20 (known): the payload encoder does not depend on the declared media type *)
-Theorem C05_media_refuted : server_payload_encoder = "axum::Json".
-Proof. reflexivity. Qed.
+(* the payload encoder follows the declared media type (since fix: commit for payload-always-json): a payload is written
+   raw only when the variant's first media type is a text type and the payload a String, or a binary type and the
+   payload bytes; a variant declared with a JSON media type is always sent as axum::Json *)
+Theorem C05_media_by_category : forall cat ty plain,
+  (payload_encoder cat ty plain = "raw" ->
+     plain = true /\ ((cat = "Text" /\ ty = "String") \/ (cat = "Binary" /\ ty = "Bytes")))
+  /\ (payload_encoder cat ty plain <> "raw" -> payload_encoder cat ty plain = "axum::Json")
+  /\ payload_encoder "Json" ty plain = "axum::Json".
+Proof.
+  intros cat ty plain. unfold payload_encoder, server_raw_payload, server_payload_encoder. cbn [existsb fst snd].
+  repeat split.
+  - destruct plain; [reflexivity|]. cbn [andb]. discriminate.
+  - destruct plain; cbn [andb] in H; [|discriminate].
+    destruct (String.eqb "Text" cat) eqn:E1; destruct (String.eqb "String" ty) eqn:E2;
+    destruct (String.eqb "Binary" cat) eqn:E3; destruct (String.eqb "Bytes" ty) eqn:E4; cbn [andb orb] in H; try discriminate;
+    repeat match goal with Hq : String.eqb _ _ = true |- _ => apply String.eqb_eq in Hq end; subst; auto.
+  - intros H. destruct (plain && _); [contradiction H; reflexivity | reflexivity].
+  - destruct plain; reflexivity.
+Qed.
 
 Example C05_nonvacuous :
   flat_routes (route_table [ {| so_path := "/pets/{id}"; so_method := "GET"; so_handler := "show" |};
@@ -50,3 +66,4 @@ Print Assumptions C05_route_table.
 Print Assumptions C05_status_units.
 Print Assumptions C05_status_unknown.
 Print Assumptions C05_pattern_wellformed.
+Print Assumptions C05_media_by_category.
